@@ -27,6 +27,21 @@ def rule(tier):
             "change where required); distinct by digest of both sources + configuration" % sorted(mutate.BREAKING))
 
 
+def _all_records(prog):
+    """named records and the anonymous ones nested in them"""
+    out, todo = [], [t for t in prog.types if isinstance(t, progen.Record)]
+    while todo:
+        t = todo.pop()
+        out.append(t)
+        for f in t.fields:
+            x = f.type
+            while isinstance(x, (progen.Pointer, progen.Qualified, progen.Array)):
+                x = x.elem if isinstance(x, progen.Array) else x.to
+            if isinstance(x, progen.Record) and x.name is None:
+                todo.append(x)
+    return out
+
+
 def names_any(rep, names):
     for _kind, e in rep.interfaces():
         for n in names:
@@ -110,6 +125,17 @@ def case(ctx, i):
                 if missing:
                     r.violate("oracle:C05:redundant-misses-interface:" + e.kind,
                               "--redundant does not name affected interfaces %s for %s" % (sorted(missing)[:4], what), run=res2.brief(), expect=e.to_json())
+    if r.violations and e.type_name and ":" in e.type_name:
+        # the mutated type is also a (by-value) member of a union: the union's "size did not change" harmless filter
+        # swallows the diff on that path and the other paths are then dropped as redundant - a family of its own
+        tt = pr.p.find_type(e.type_name.split(":", 1)[1])
+        through_union = tt is not None and any(
+            isinstance(u, progen.Record) and u.kind == "union" and u is not tt and any(x is tt for x in pr.p.reach(u, through_methods=False))
+            for u in _all_records(pr.p))
+        if through_union:
+            for v in r.violations:
+                if v.key.startswith("oracle:C05:"):
+                    v.key = ":".join(v.key.split(":")[:3]) + ":mutated-type-also-reachable-through-a-union"
     if r.violations and pr.p.lang == "cxx":
         # how did the reader see the classes?  A C++ class recorded as declaration-only *with member functions attached*
         # although its definition is in the debug info is a family of its own (changes below it are invisible): say so
